@@ -188,16 +188,32 @@ class Engine:
             if d.eq(S.VReal):
                 return z3.IntVal(ids["builtins:float"])
             if d.eq(S.VObj):
-                return S.ocls(t.arg(0))
+                return self._obj_cls(t.arg(0))
             if d.eq(S.VAll):
                 return z3.IntVal(ids["builtins:builtin_all"])
-        return z3.If(S.is_VObj(t), S.ocls(S.oid(t)),
+        return z3.If(S.is_VObj(t), self._obj_cls(S.oid(t)),
                z3.If(S.is_VInt(t), ids["builtins:int"],
                z3.If(S.is_VBool(t), ids["builtins:bool"],
                z3.If(S.is_VNone(t), ids["builtins:NoneType"],
                z3.If(S.is_VStr(t), ids["builtins:str"],
                z3.If(S.is_VReal(t), ids["builtins:float"],
                z3.If(S.is_VEnum(t), self._enum_cls(t), ids["builtins:builtin_all"])))))))
+
+    def _obj_cls(self, o):
+        """class id of an object id; heap objects never have the class of a primitive or an enum"""
+        oc = S.ocls(o)
+        so = z3.simplify(oc)
+        prim = self._prim_ids()
+        if z3.is_int_value(so):
+            return so if so.as_long() not in prim else z3.IntVal(0)
+        return z3.If(z3.Or([oc == i for i in sorted(prim)]), z3.IntVal(0), oc)
+
+    def _prim_ids(self):
+        if not hasattr(self, "_prim"):
+            ids = {self.class_ids[f"builtins:{n}"] for n in ("int", "bool", "float", "str", "NoneType", "builtin_all")}
+            ids |= {self.class_ids[k] for k in self.enum_ids}
+            self._prim = ids
+        return self._prim
 
     def _enum_cls(self, t):
         e = S.ecls(t)
@@ -1172,7 +1188,8 @@ class Engine:
                 return
             raise PathEnd()
         if self.branch(cond, f"implicit {excname}"):
-            raise PyRaise(self.new_exception(excname), self.ct.ext[excname], where=(getattr(node, "lineno", None), what))
+            raise PyRaise(self.new_exception(excname), self.ct.ext[excname],
+                          where=(getattr(node, "lineno", None), what + " in " + (run.inline_stack[-1] if run.inline_stack else "?")))
 
     def dead_value(self):
         """Reached where execution cannot continue: in merged expressions (dead guard) any value
